@@ -118,8 +118,17 @@ func poolB(tier string, i int) GenOpts {
 func planFor(prop string, tier string, i int) (GenOpts, uint64) {
 	o := GenOpts{Tier: tier}
 	switch prop {
-	case "C01", "C02", "C03":
+	case "C01", "C02":
 		return poolA(tier, i), uint64(i)
+	case "C03":
+		// pool A, and every fifth history destroys a bucket (catalog.RemoveTimeBucket) after an acknowledged
+		// write that no checkpoint follows: every later crash prefix holds a WAL whose transaction group
+		// names a year file that is gone (the cleaner's move-aside branch)
+		if i%5 == 4 {
+			return GenOpts{Tier: tier, Clean: true, Destroy: true, NoVariable: i%10 == 4, MaxSteps: 5}, 4000 + uint64(i)
+		}
+		j := i - i/5
+		return poolA(tier, j), uint64(j)
 	case "C05":
 		if i%4 == 0 {
 			return poolA(tier, i+2), uint64(i + 2) // the checkpointed history of pool A
